@@ -31,6 +31,16 @@ pub enum Field {
     /// to the auth-id timestamp, clock at the second read relative to it). The token is honoured - the flow is opened - at the
     /// second read, so that is the moment at which it must still be within 120 s.
     VmessAuthIdSplit(u16, i64, i64),
+    /// 2022 TCP request (timestamp = T0) whose bytes arrive in two reads while the clock moves: (cut position behind the
+    /// fixed header, clock at the first read relative to the timestamp, clock at the second read). The request is accepted -
+    /// the server learns the target and dials - at the read that completes the variable-length header, so that is the
+    /// moment at which the timestamp must still be within 30 s.
+    #[serde(alias = "S22RequestSplit")]
+    S22RequestSplit(u16, i64, i64),
+    /// VMess response whose sealed header has this many bytes (the regular one has 4: V, options, command, length) and,
+    /// where it has a first byte, the right or a wrong V. A header without any byte carries no response authentication
+    /// byte: the response is not bound to the client's request.
+    VmessResponseHeader(u8, bool),
 }
 
 #[derive(Clone, Debug, Serialize, Deserialize)]
@@ -65,6 +75,8 @@ pub fn field_strategy() -> BoxedStrategy<FieldCase> {
         3 => delta_strategy(120).prop_map(Field::VmessAuthId),
         2 => (prop_oneof![2 => Just(0u16), 2 => any::<u16>(), 1 => Just(u16::MAX)], prop_oneof![3 => -120i64..=120, 1 => -400i64..=400], prop_oneof![2 => -120i64..=120, 3 => 121i64..4000, 1 => -4000i64..-120]).prop_map(|(c, a, b)| Field::VmessAuthIdSplit(c, a, b)),
         2 => (prop_oneof![3 => Just(0u8), 2 => 1u8..=255], proptest::bool::weighted(0.3)).prop_map(|(v, k)| Field::VmessResponse(v, k)),
+        1 => (prop_oneof![3 => Just(0u8), 2 => 1u8..=8], proptest::bool::weighted(0.4)).prop_map(|(l, w)| Field::VmessResponseHeader(l, w)),
+        2 => (prop_oneof![2 => Just(0u16), 3 => any::<u16>()], prop_oneof![4 => -30i64..=30, 1 => -90i64..=90], prop_oneof![2 => -30i64..=30, 3 => 31i64..400, 1 => -400i64..-30]).prop_map(|(c, a, b)| Field::S22RequestSplit(c, a, b)),
     ];
     (0u8..8, 0u8..3, any::<u64>(), f).prop_map(|(cipher, users, seed, field)| FieldCase { cipher, users, seed, field }).boxed()
 }
@@ -279,6 +291,75 @@ impl SubCheck for Fields {
                         "handshake-fields/vmess/auth-id-split/rejected-but-acceptable",
                         format!("a request cut at {} whose auth-id is {} s / {} s old at its two reads was rejected (err {:?})", cut, d1, d2, fed.err),
                     );
+                }
+            }
+            Field::S22RequestSplit(cutp, d1, d2) => {
+                let cred = gen::make_cred(Proto::Ss22(c22), "", c.seed, n_users, 0);
+                let o = ReqOpts::new(T0);
+                let f = refside::ref_client_request(&cred, &addr, &payload, &o, &mut d).unwrap();
+                let sctx = ServerCtx::new(&cred).unwrap();
+                let mut codec = sctx.codec().unwrap();
+                // salt, identity header and fixed header arrive together (the boundary the protocol itself demands);
+                // cut 0 = right behind the fixed header, otherwise anywhere behind it
+                let fixed_end = crate::props::c04::exempt_prefix(&cred, &f);
+                if fixed_end == 0 || fixed_end >= f.wire.len() {
+                    return out;
+                }
+                let cut = if *cutp == 0 { fixed_end } else { fixed_end + rt::idx(*cutp, f.wire.len() - fixed_end) };
+                let segs = crate::drive::cut(&f.wire, &[cut]);
+                let clocks = [(T0 as i64 + d1) as u64, (T0 as i64 + d2) as u64];
+                let fed = crate::drive::feed_with(&mut codec, &segs, |i| real::set_clock(Some(clocks[i.min(1)])));
+                real::set_clock(Some(T0));
+                let items: Vec<real::Item> = fed.items.iter().map(|i| real::Item::from_inbound(i).0).collect();
+                let got = matches!(flow_of(&items), Flow::Tcp { .. });
+                let complete_at_first = cut >= f.header_end || segs.len() < 2;
+                let age_when_accepted = if complete_at_first { *d1 } else { *d2 };
+                let (fresh1, fresh2) = (d1.abs() <= 30, d2.abs() <= 30);
+                out.label(format!("2022-request split first:{} second:{} cut:{}", if fresh1 { "fresh" } else { "stale" }, if fresh2 { "fresh" } else { "stale" }, if cut == fixed_end { "behind-fixed-header" } else if cut < f.header_end { "in-variable-header" } else { "behind-header" }));
+                out.nontrivial(format!("s22reqsplit|{}|{}|{}|{}|{}", c22.name(), fresh1, fresh2, complete_at_first, n_users));
+                if let Some(p) = fed.panic {
+                    out.fail("handshake-fields/ss-2022/request-split/panic", p);
+                } else if got && age_when_accepted.abs() > 30 {
+                    out.fail(
+                        "handshake-fields/ss-2022/request-split/accepted-but-must-be-rejected",
+                        format!("a request whose variable-length header (ends at {}) was completed by the read at timestamp age {} s (the first {} bytes, salt and fixed header included, arrived at age {} s) was accepted: the server dials for a request whose timestamp is more than 30 s from its clock", f.header_end, age_when_accepted, cut, d1),
+                    );
+                } else if !got && fresh1 && fresh2 {
+                    out.fail(
+                        "handshake-fields/ss-2022/request-split/rejected-but-acceptable",
+                        format!("a request cut at {} whose timestamp is {} s / {} s old at its two reads was rejected (err {:?})", cut, d1, d2, fed.err),
+                    );
+                }
+            }
+            Field::VmessResponseHeader(len, wrong_v) => {
+                use crate::refimpl::vmess;
+                let sec = if c.cipher % 2 == 0 { 3 } else { 4 };
+                let cred = gen::make_cred(Proto::Vmess(sec), "", c.seed, 1, 0);
+                let address = to_address(&addr).unwrap();
+                let cctx = ClientCtx::new(&cred).unwrap();
+                let mut cc = cctx.codec(&address).unwrap();
+                let Ok((first, _)) = encode_all(&mut cc, vec![BytesMut::from(&b"hello"[..])]) else { return out };
+                let Ok(req) = refside::ref_server_decode(&cred, &first, T0) else { return out };
+                let SessionInfo::Vmess(h) = &req.session else { return out };
+                let (rk, ri) = vmess::response_keys(&h.body_key, &h.body_iv);
+                let full = [h.v ^ if *wrong_v { 0x5a } else { 0 }, h.opt, 0, 0, 0, 0, 0, 0];
+                let n = (*len as usize).min(8);
+                let mut wire = vmess::encode_response_header_raw(&rk, &ri, &full[..n]);
+                let mut dd = Det::new(c.seed, "resp-hdr-pad");
+                wire.extend(vmess::Body::response(h).encode(&payload, &mut || dd.u8()));
+                let fed = feed(&mut cc, &[wire]);
+                let got = !fed.items.is_empty();
+                out.label(format!("vmess-response header-bytes:{} v:{}", n, if n == 0 { "absent" } else if *wrong_v { "wrong" } else { "ok" }));
+                out.nontrivial(format!("vmessresphdr|{}|{}|{}", sec, n, wrong_v));
+                if let Some(p) = fed.panic {
+                    out.fail("handshake-fields/vmess/response-header/panic", p);
+                } else if got && (n == 0 || *wrong_v) {
+                    out.fail(
+                        "handshake-fields/vmess/response-header/accepted-but-must-be-rejected",
+                        format!("a response whose sealed header has {} bytes ({}) was accepted and its body delivered", n, if n == 0 { "no response authentication byte at all" } else { "a wrong response authentication byte" }),
+                    );
+                } else if !got && n == 4 && !*wrong_v {
+                    out.fail("handshake-fields/vmess/response-header/rejected-but-acceptable", format!("a regular response was rejected (err {:?})", fed.err));
                 }
             }
             Field::VmessResponse(vx, other_keys) => {
